@@ -331,6 +331,41 @@ def data_dumps(d):
     return dumps(data_obj(d))
 
 
+def data_obj_foreign(d):
+    """The same value as another tool chain may write it: valid CBOR, but not the form the
+    Haskell encoder / pallas re-encoding produce: definite-length long byte strings, definite
+    arrays, non-minimal integer heads. The hash a transaction commits to is the hash of these
+    bytes, not of a re-encoding."""
+    if "f" in d:
+        ix = int(d["c"])
+        fields = [data_obj_foreign(x) for x in d["f"]]
+        if ix < 7:
+            return Tag(121 + ix, fields)
+        if ix < 128:
+            return Tag(1280 + ix - 7, fields)
+        return Tag(102, [ix, fields])
+    if "m" in d:
+        return Map([(data_obj_foreign(k), data_obj_foreign(v)) for k, v in d["m"]])
+    if "l" in d:
+        return [data_obj_foreign(x) for x in d["l"]]
+    if "i" in d:
+        n = int(d["i"])
+        if 0 <= n < 24:
+            return Raw(bytes([0x18, n]))
+        if 24 <= n < 256:
+            return Raw(bytes([0x19, 0x00, n]))
+        if -24 <= n < 0:
+            return Raw(bytes([0x38, -1 - n]))
+        return n
+    if "b" in d:
+        return bytes.fromhex(d["b"])  # definite length whatever the size
+    raise ValueError(f"bad data {d}")
+
+
+def data_dumps_foreign(d):
+    return dumps(data_obj_foreign(d))
+
+
 def data_from_obj(v):
     """decoded CBOR -> JSON data (by value)."""
     if isinstance(v, Tag):
